@@ -59,6 +59,28 @@ class ListSub(list):
         super().extend(items)
 
 
+class DictSub(dict):
+    """A registry-like mapping: the copy / pickle protocol re-creates it through __reduce_ex__ and __setitem__."""
+
+    def __setitem__(self, k, v):
+        record("dictsub-setitem")
+        super().__setitem__(k, v)
+
+    def __reduce_ex__(self, protocol):
+        record("dictsub-reduce")
+        return super().__reduce_ex__(protocol)
+
+
+class SetSub(set):
+    def __copy__(self):
+        record("setsub-copy")
+        return self
+
+    def __deepcopy__(self, memo):
+        record("setsub-deepcopy")
+        return self
+
+
 def _getter(self):
     record("property-get")
     return 1
@@ -144,6 +166,14 @@ def reset():
 
 VALUE = 42
 LIST = [1, 2]
+DICT = {"k": [1]}
+SET = {1, 2}
+BYTEARRAY = bytearray(b"ab")
+REGISTRY = list.__new__(ListSub)        # (built without running the recording hooks)
+list.extend(REGISTRY, [1, 2])
+TABLE = dict.__new__(DictSub)
+dict.__setitem__(TABLE, "k", "v")
+SETSUB = SetSub([1])
 INSTANCE = Plain()
 GENLIKE = GenLike()
 ITERLIKE = IterLike()
